@@ -7,15 +7,29 @@ TRUST = ("Lean 4.33 kernel with axioms propext/Classical.choice/Quot.sound only 
          "the hand-written model is tied to the code by the correspondence harness, whose generators bound what it sees; "
          "numpy/scipy/igraph/CPython/Cython bounds checks are modelled, not verified.")
 
-# id -> (technique, level text, level note, design ref)
-CLAIMED = {
- "C08": ("Lean 4 proof (kernel fold = run-length specification, accounting identities) + exact kernel-boundary correspondence",
-         "Theorems vert/white/diag(_mv)_eq_runs, diagCoords_mem/count, *_accounts_*, vert_white_account_all, sequential_eq_matrix, "
-         "partialWsum_le_wsum are proved for every matrix size about the Lean model of _line_dist; the model is compared output-for-output "
-         "with the compiled kernels on all small symmetric matrices, random matrices and missing-value masks, and RecurrencePlot's "
-         "histograms / scalar RQA measures are compared with an independent run-length counter in both storage modes.",
-         TRUST + " Entropies (log) are compared numerically only.", "5/C08"),
-}
+def load_claimed():
+    """manifest/<id>.json: {"technique", "text", "note", "design_ref"[, "level"]}"""
+    out = {}
+    d = os.path.join(HERE, "manifest")
+    for fn in sorted(os.listdir(d)):
+        if fn.endswith(".json"):
+            out[fn[:-5]] = json.load(open(os.path.join(d, fn)))
+    return out
+
+
+def aggregate_findings():
+    out = {"_comment": "aggregated from findings/<id>.json by tools/mk_manifest.py; read-only for the checks. "
+           "findings: genuine defects recorded, not repaired (signature-matched, never a wildcard). "
+           "fixed: defects repaired by a fix: commit in /repo (these suppress nothing).",
+           "findings": [], "fixed": []}
+    d = os.path.join(HERE, "findings")
+    for fn in sorted(os.listdir(d)):
+        if fn.endswith(".json"):
+            j = json.load(open(os.path.join(d, fn)))
+            out["findings"] += j.get("findings", [])
+            out["fixed"] += j.get("fixed", [])
+    json.dump(out, open(os.path.join(HERE, "known_findings.json"), "w"), indent=1)
+
 
 PENDING = {}
 
@@ -27,10 +41,15 @@ def main():
     except Exception:
         hook_commits = []
     checks, na = [], []
+    CLAIMED = load_claimed()
+    aggregate_findings()
     for p in props:
         pid = p["id"]
         if pid in CLAIMED:
-            tech, text, note, ref = CLAIMED[pid]
+            c = CLAIMED[pid]
+            tech, text, note, ref = c["technique"], c["text"], c.get("note", "") or TRUST, c.get("design_ref", "5/" + pid)
+            if c.get("note_extra"):
+                note = TRUST + " " + c["note_extra"]
             checks.append({
                 "property_id": pid,
                 "quick_cmd": f"./check {pid} --tier quick",
@@ -38,7 +57,7 @@ def main():
                 "evidence_file": f"evidence/{pid}.json",
                 "replay_cmd_template": f"./check {pid} --replay {{path}}",
                 "engine": "lean4+correspondence",
-                "level_claimed": {"category": "proof", "text": text, "design_ref": f"DESIGN.md section {ref}"},
+                "level_claimed": {"category": c.get("level", "proof"), "text": text, "design_ref": f"DESIGN.md section {ref}"},
                 "level_note": note,
                 "technique": tech,
             })
